@@ -10,9 +10,9 @@ def sh(cmd, cwd):
 def results(out):
     return re.findall(r"test result: (\w+)\. (\d+) passed; (\d+) failed", out)
 with_ = results(sh("cargo test --offline 2>&1", wt + "/_demo"))
-sh("git stash -q", wt)
+sh("git apply -R _demo/patch.diff", wt)
 without = results(sh("cargo test --offline 2>&1", wt + "/_demo"))
-sh("git stash pop -q", wt)
+sh("git apply _demo/patch.diff", wt)
 log = wt.rstrip("/") + ".verify.log"
 suite = results(open(log).read().split("== full suite WITH change")[1]) if os.path.exists(log) and "== full suite WITH change" in open(log).read() else []
 if not suite:
